@@ -31,10 +31,10 @@ theorem C14_build_unrelated_entries (T : Tables) (es : Entries) (n : Nat) (ids :
     (h : ∀ i, Reach T ids i → es.lookupB i = none ∧ es.lookupD i = none) :
     buildD (extend T es) n ids = buildD T n ids := by
   symm
-  refine buildD_congr T (extend T es) (Reach T ids) ?_ ?_ ?_ n ids (fun i hi => Reach.root i hi)
+  refine buildD_congr T (extend T es) (Reach T ids) ?_ ?_ ?_ n ids (fun i hi => Reach.here hi)
   · intro i hi; exact (extend_b_of_none T es i (h i hi).1).symm
   · intro i hi; exact (extend_d_of_none T es i (h i hi).2).symm
-  · intro i row hi h3 hd m hm; exact Reach.step i row m hi h3 hd hm
+  · intro i row hi h3 hd m hm; exact Reach.member hi h3 hd hm
 
 /-- the instance the driver evaluates (`build` = depth 64) -/
 theorem C14_build_unrelated_entries_build (T : Tables) (es : Entries) (ids : List Nat)
@@ -115,8 +115,8 @@ example : fixNcep [.fixedRep 100002 []] = .error .other := C14_fix_ncep_refuses_
 private theorem reachH : ∀ i, Reach Th idsH i → i ∈ [104002, 1001, 102003, 300010, 102002, 300011] := by
   intro i hi
   induction hi with
-  | root i h => simp [idsH] at h ⊢; omega
-  | step s row m _ h3 hd hm ih =>
+  | here h => simp [idsH] at h ⊢; omega
+  | member _ h3 hd hm ih =>
     simp only [List.mem_cons, List.not_mem_nil, or_false] at ih ⊢
     rcases ih with rfl | rfl | rfl | rfl | rfl | rfl
     all_goals first
